@@ -1093,7 +1093,7 @@ func (c *compiler) evalCallExpression(node *ast.CallExpression) (interface{}, er
 
 	res := rv.Call(args)
 	if len(res) > 0 {
-		if e, ok := res[len(res)-1].Interface().(error); ok {
+		if e, ok := res[len(res)-1].Interface().(error); ok && !isNilPointer(e) {
 			return nil, fmt.Errorf("could not call %s function: %w", node.Function, e)
 		}
 		if node.ChainCallee != nil {
@@ -1103,6 +1103,14 @@ func (c *compiler) evalCallExpression(node *ast.CallExpression) (interface{}, er
 	}
 
 	return nil, nil
+}
+
+// isNilPointer reports whether the error is a nil pointer of a concrete
+// error type: a helper declared as func() (T, *MyErr) that returns nil has
+// not failed.
+func isNilPointer(e error) bool {
+	rv := reflect.ValueOf(e)
+	return rv.Kind() == reflect.Ptr && rv.IsNil()
 }
 
 // evalChainCallee evaluates the rest of a path that goes on after a call:
